@@ -7,7 +7,7 @@ import os, sys, subprocess, json, time
 ROOT = os.path.dirname(os.path.dirname(os.path.abspath(__file__)))
 ENV = dict(os.environ, CARGO_NET_OFFLINE='true', VERIF_EVIDENCE_DIR='/root/scratch/mut_evidence')
 def sh(cmd, cwd=ROOT, timeout=3000):
-    p = subprocess.run(cmd, shell=True, cwd=cwd, capture_output=True, text=True, timeout=timeout, env=ENV)
+    p = subprocess.run(cmd, shell=True, cwd=cwd, stdin=subprocess.DEVNULL, capture_output=True, text=True, timeout=timeout, env=ENV)
     return p.returncode, p.stdout + p.stderr
 ids = sys.argv[1:] or sorted(os.listdir(os.path.join(ROOT, 'seeded')))
 for sid in ids:
